@@ -177,7 +177,7 @@ def build(model: dict) -> Tuple[bytes, RolandLayout]:
             for a, c in zip(ch, ch[1:]):
                 fat[a] = c
             fat[ch[-1]] = sm.get("end_marker", 0xFFFF)
-            data = pcm_bytes(sm["key"], sm["n"])
+            data = sample_words(sm)
             for j, c in enumerate(ch):
                 base = DATA_FAT_OFF + c * CL
                 if j < top:
@@ -278,11 +278,22 @@ def end_point(sm: dict) -> int:
     return pts[4][0] if mode in (1, 3) else pts[2][0]
 
 
+def sample_words(sm: dict) -> bytes:
+    """All n words of a (non-alias) sample; ``silent_tail`` = k makes the last k words digital silence."""
+    off = sm.get("key_offset", 0)                   # an alias sample starts `off` words into its owner's data
+    total = off + sm["n"]
+    data = pcm_bytes(sm["key"], total)
+    k = min(sm.get("silent_tail", 0), max(0, sm["n"] - 4))
+    if k:
+        data = data[:2 * (total - k)] + bytes(2 * k)
+    return data[2 * off:]
+
+
 def expected_pcm(sm: dict) -> bytes:
     start = sm["points"][0][0]
     end = end_point(sm)
     off = sm.get("key_offset", 0)
-    data = pcm_bytes(sm["key"], off + sm["n"])[2 * off:]
+    data = sample_words(sm)
     x = data[2 * start:2 * (end + 1)]
     if sm.get("loop_mode", 2) in (5, 6):
         x = b"".join(x[i:i + 2] for i in range(len(x) - 2, -1, -2))
